@@ -69,16 +69,6 @@ def WellFormed : Prop :=
 
 def good : Yuv := { y, u, v, cfg := cfg.fixUnspecified y.cfg.width y.cfg.height, ts }
 
-/-- the chroma planes of an otherwise well-formed frame with non-empty luma are non-empty in width -/
-theorem chroma_width_pos (hw : 0 < y.cfg.width) (hdiv : y.cfg.width % 2 ^ cfg.ssx = 0) : 0 < y.cfg.width >>> cfg.ssx := by
-  rw [Nat.shiftRight_eq_div_pow]
-  have hp : 0 < 2 ^ cfg.ssx := Nat.pow_pos (by decide)
-  have := Nat.div_add_mod y.cfg.width (2 ^ cfg.ssx)
-  rw [hdiv] at this
-  rcases Nat.eq_zero_or_pos (y.cfg.width / 2 ^ cfg.ssx) with h0 | h0
-  · rw [h0] at this; simp at this; omega
-  · exact h0
-
 /-! `Yuv::new`: the documented errors in the documented precedence -/
 
 theorem yuvNew_decim (h : DecimMismatch u v cfg) : Yuv.new y u v cfg ts = .ok (.error .SubsamplingMismatch) := by
@@ -119,7 +109,7 @@ theorem yuvNew_scan (hw : 0 < y.cfg.width) (h1 : ¬ DecimMismatch u v cfg) (h2 :
     (Scanned cfg ts → OutOfRange y u v cfg → Yuv.new y u v cfg ts = .ok (.error .InvalidData)) ∧
     ((Scanned cfg ts → ¬ OutOfRange y u v cfg) → Yuv.new y u v cfg ts = .ok (.ok (good y u v cfg ts))) := by
   obtain ⟨cy, cu, cv⟩ := h5
-  have hcw := chroma_width_pos y cfg hw h2
+  have hcw := FrameP.shr_pos _ _ hw h2
   have huw : u.cfg.width ≠ 0 := by unfold ChromaSizeWrong at h4; omega
   have hvw : v.cfg.width ≠ 0 := by unfold ChromaSizeWrong at h4; omega
   obtain ⟨by_, hby, hbyi⟩ := anyAbove_spec y (maxCode cfg) cy (Or.inl (by omega))
@@ -197,33 +187,11 @@ theorem yuvNew_verbatim (g : Yuv) (hg : Yuv.new y u v cfg ts = .ok (.ok g)) :
   all_goals (simp at hg; subst hg; exact ⟨rfl, rfl, rfl, rfl, rfl⟩)
 end yuv
 
-/-! ### frames built with `Plane::new` always cover their geometry -/
-
-theorem alignPow2_ge (x n : Nat) : x ≤ alignPow2 x n := by
-  unfold alignPow2
-  have hp : 0 < 2 ^ n := Nat.pow_pos (by decide)
-  generalize 2 ^ n = P at *
-  have h := Nat.div_add_mod (x + P - 1) P
-  have hm := Nat.mod_lt (x + P - 1) hp
-  have : P * ((x + P - 1) / P) = (x + P - 1) / P * P := Nat.mul_comm _ _
-  omega
-
+/-! ### frames built with `Plane::new` always cover their geometry (proved in Proofs/Frame.lean) -/
 theorem planeNew_covers (w h xd yd xp yp tsz : Nat) (data : Array Nat) (hw : 0 < w) (hh : 0 < h)
     (hs : data.size = (Plane.new w h xd yd xp yp tsz).data.size) :
-    ({ (Plane.new w h xd yd xp yp tsz) with data := data } : Plane).covers = true := by
-  unfold Plane.covers
-  simp only [hs]
-  unfold Plane.new PlaneCfg.new
-  simp only [Array.size_replicate, decide_eq_true_eq]
-  have hst := alignPow2_ge (alignPow2 xp (6 + 1 - tsz) + w + xp) (6 + 1 - tsz)
-  generalize alignPow2 (alignPow2 xp (6 + 1 - tsz) + w + xp) (6 + 1 - tsz) = S at *
-  generalize alignPow2 xp (6 + 1 - tsz) = X at *
-  have hne : ¬ (w = 0 ∨ h = 0) := by omega
-  simp only [hne, if_false]
-  have : S * (yp + h + yp) = (yp + (h - 1)) * S + S + yp * S := by
-    have : yp + h + yp = (yp + (h - 1)) + 1 + yp := by omega
-    rw [this, Nat.mul_add, Nat.mul_add, Nat.mul_one, Nat.mul_comm S, Nat.mul_comm S yp]
-  omega
+    ({ (Plane.new w h xd yd xp yp tsz) with data := data } : Plane).covers = true :=
+  FrameP.planeNew_covers w h xd yd xp yp tsz data hw hh hs
 
 /-- non-vacuity: a concrete well-formed 4:2:0 frame (2x2 luma, 1x1 chroma, u8) meets the hypotheses and is accepted -/
 def exY : Plane := { data := #[10, 20, 30, 40], cfg := { stride := 2, allocHeight := 2, width := 2, height := 2, xdec := 0, ydec := 0, xpad := 0, ypad := 0, xorigin := 0, yorigin := 0 } }
